@@ -154,6 +154,13 @@ class P(flow.Plan):
                                             for _ in range(rng.randint(1, 6))))
                 for la in lookalikes(style):
                     payloads += [la + "M3 S1", "a " + la + "G0 Z-5 " + (c or ""), la + la]
+                # texts that are themselves wrapped in the configured delimiters, with a closer and a payload inside
+                # (added after seed C09e: "already a comment, keep it as it is")
+                if c:
+                    payloads += [o + "a" + c + " M3 S1 " + o + "b" + c, o + c + "G0 Z-50" + o + c, o + " first" + c + "\nG28 " + o + "x" + c,
+                                 o + "a" + c, o + o + "a" + c + " M112 " + c]
+                else:
+                    payloads += [o + "a\nM3 S1 " + o + "b", o + " a " + o]
                 ev = [case(style, entry, p, "\r\n" if (len(p) + len(entry)) % 5 == 0 else "\n") for p in payloads]
                 # the comment style is changed on a living builder that has already written the same text under another
                 # style (added after seed C09d: a memoised sanitiser that survived set_comment_symbols())
